@@ -79,7 +79,8 @@ class Parser(FStringRules, ThreeNineParser):
 
     def p_type_param_typevar_bound(self, p):
         """type_param : NAME COLON test"""
-        p[0] = ast.TypeVar(name=p[1], bound=p[3], **self._type_param_loc(p, 1, 3))
+        # p.lineno(3) of the nonterminal `test` is 0: locate the node by its name token
+        p[0] = ast.TypeVar(name=p[1], bound=p[3], **self._type_param_loc(p, 1, 1))
 
     def p_type_param_typevartuple(self, p):
         """type_param : TIMES NAME"""
